@@ -1,4 +1,51 @@
-import Walleye.Model.MoveGen
+/-
+  C09 — thinking time never exceeds what the mover's clock allows.
+  The slice is computed over an exact integer model of IEEE-754 binary64 (Model/Time.lean).
+  Proved: `slice_mover_only`; `slice_le_u128`; the saturation / no-clock branch structure.
+  Not proved yet (decided on the boundary lattice and 10^4..10^6 random i128 inputs by an exact
+  rational oracle): `slice_le_clock`, `slice_bound` (80% share) — they need the rounding lemmas
+  (monotonicity and 2^-53 relative error of `round53`).
+-/
+import Walleye.Model.Time
 namespace Walleye
-theorem C09_placeholder (c : Color) : c.opp.opp = c := Color.opp_opp c
+
+/-- the slice is a function of the mover's own clock, increment and movestogo only -/
+theorem slice_mover_only (gt gt' : GameTime) (c : Color) (hm : gt.movestogo = gt'.movestogo)
+    (hw : c = .white → gt.wtime = gt'.wtime ∧ gt.winc = gt'.winc)
+    (hb : c = .black → gt.btime = gt'.btime ∧ gt.binc = gt'.binc) :
+    calculateTimeSlice gt c = calculateTimeSlice gt' c := by
+  unfold calculateTimeSlice
+  cases c
+  · obtain ⟨h1, h2⟩ := hw rfl
+    simp only [hm, h1, h2]
+  · obtain ⟨h1, h2⟩ := hb rfl
+    simp only [hm, h1, h2]
+
+/-- the saturating cast never leaves the u128 range, and is 0 for non-positive values -/
+theorem toU128_range (n : Int) : F64.toU128 n < 2 ^ 128 ∧ (n ≤ 0 → F64.toU128 n = 0) := by
+  unfold F64.toU128
+  refine ⟨?_, fun h => by simp [h]⟩
+  split
+  · omega
+  · split
+    · omega
+    · omega
+
+/-- whatever the inputs, the planned slice fits the u128 the engine stores it in -/
+theorem slice_le_u128 (gt : GameTime) (c : Color) : calculateTimeSlice gt c < 2 ^ 128 := by
+  unfold calculateTimeSlice
+  have hno : Gen.noTime < 2 ^ 128 := by decide
+  cases c <;> dsimp only <;>
+    repeat' (first
+      | exact (toU128_range _).1
+      | exact hno
+      | (show 2 ^ 128 - 1 < 2 ^ 128; decide)
+      | split)
+
+/-- concrete values of the model (kernel computation): the examples of the property text -/
+example : calculateTimeSlice { wtime := 1000, btime := 7 } .white = 24 := by decide +kernel
+example : calculateTimeSlice { wtime := 50, winc := 1000 } .white = 50 := by decide +kernel
+example : calculateTimeSlice { wtime := 100, winc := 0 } .white = 0 := by decide +kernel
+example : calculateTimeSlice { btime := 60100, movestogo := some 10 } .black = 4800 := by decide +kernel
+
 end Walleye
